@@ -1,4 +1,5 @@
 import ProcSim.Lemmas.Hazards
+import ProcSim.Lemmas.Routes
 /-!
 # C01 — register hazards respected: conflicting accesses occur in program order
 
@@ -230,12 +231,41 @@ theorem C01_replay_eq_sequential_partial {r : N} :
 
 end corollaries
 
-/- NOTE (what is missing for the full `C01_replay_eq_sequential`): the full statement — "for a `.done` diagram, replaying
-reads and writes in diagram order with an arbitrary operation gives every instruction the operand values, and the
-register file the final contents, of sequential execution" — needs in addition that in a *returned* diagram every
-instruction performs its read and its write access (existence; uniqueness is `C01_access_once`). Existence follows from
-"a finished run has moved every instruction along a maximal route into an output port" (C03, `Lemmas/Routes`) and
-`routeLocksOK`; it is not proved here. Everything order-related is: `C01_replay_eq_sequential_partial`. -/
+/-! ## Existence of the accesses in a returned diagram -/
+
+/-- **In a returned diagram every instruction performs its read access and its write access** (in exactly one cycle
+each, by `C01_access_once`): a finished run has moved every instruction through an output-boundary port, and on every
+walk from an input port to the output boundary there is a read-locking and a write-locking unit. -/
+theorem C01_access_exists (p : Proc N) (prog : List (Instr N)) (tbl : List (Util N))
+    (hwf : wfProc p = true) (hp : ProgOK prog) (h : Diagram p prog tbl false) {i : Nat} (hi : i < prog.length)
+    (k : Bool) : ∃ t, t ∈ (ctx p prog tbl false).accs k i := by
+  obtain ⟨_, _, _, _, hlastrow⟩ := Diagram_route hwf h
+  obtain ⟨s, ⟨hinv, hdn⟩, htbl, _, hfin⟩ := simulate_induction (p := p) (prog := prog)
+    (fun s => HazardInv p prog s ∧ DoneInv p prog s) ⟨HazardInv.init p prog, DoneInv.init p prog⟩
+    (fun s s' hs hr => ⟨hs.1.step hwf hp hr, hs.2.step hwf hs.1.core hs.1.host hr⟩) tbl false h
+  have hf := hfin rfl
+  simp only [SimState.finished, Bool.not_eq_true', Bool.or_eq_false_iff, decide_eq_false_iff_not,
+    Nat.not_lt] at hf
+  have hent : i < s.entered := by omega
+  have hg : ∀ k, grantedB p s.table k i = true := by
+    rcases hdn i hent with ⟨n, hn⟩ | hg
+    · obtain ⟨y, hy, hyi⟩ := List.mem_map.1 hn
+      have hy' : y ∈ (tbl.getD (tbl.length - 1) ([] : List (N × List HI))).get n := by
+        rw [htbl, List.length_reverse, ← head?_getD_eq_reverse_getD, ← hinv.core.util_eq]; exact hy
+      obtain ⟨hout, hU⟩ := (hlastrow rfl).2 n y hy'
+      have hne : s.util.get n ≠ [] := fun e => by rw [e] at hy; cases hy
+      obtain ⟨u, hu, hun⟩ := List.mem_map.1 (hinv.core.row.names n hne)
+      subst hun
+      intro k
+      rw [← hyi]
+      exact granted_of_outB hwf hinv.host hu hout hy (by rw [hU]; decide) k
+    · exact hg
+  have hd : (ctx p prog tbl false).doneBefore k i tbl.length = true := by
+    rw [doneBefore_eq, List.take_length, htbl, grantedB_reverse]; exact hg k
+  unfold Ctx.doneBefore at hd
+  rw [List.any_eq_true] at hd
+  obtain ⟨t, ht, _⟩ := hd
+  exact ⟨t, ht⟩
 
 /-! ## Non-vacuity
 
